@@ -95,6 +95,7 @@ type Results struct {
 	maxViolPerKey int
 	maxViolHits   int // stop exploring once this many failing assertion instances were seen (the check is lost anyway; go to replay)
 	violHits      int
+	graceS        int
 	stopFlag      int32
 	StopWhy       string
 	wantVectors   int
@@ -109,7 +110,7 @@ type HarnessStats struct {
 }
 
 func NewResults() *Results {
-	return &Results{violKeys: map[string]int{}, Reach: map[string]map[string]int64{}, Bounds: map[string]int64{}, Funcs: map[string]int64{}, FuncInstr: map[string]int{}, Stubs: map[string]int64{}, vecPerHarness: map[string]int{}, PerHarness: map[string]*HarnessStats{}, maxViolPerKey: 2, maxViolHits: 24, wantVectors: 3}
+	return &Results{violKeys: map[string]int{}, Reach: map[string]map[string]int64{}, Bounds: map[string]int64{}, Funcs: map[string]int64{}, FuncInstr: map[string]int{}, Stubs: map[string]int64{}, vecPerHarness: map[string]int{}, PerHarness: map[string]*HarnessStats{}, maxViolPerKey: 2, maxViolHits: 24, graceS: 45, wantVectors: 3}
 }
 
 func (r *Results) hs(h string) *HarnessStats {
@@ -516,6 +517,14 @@ func (R *Results) addViolation(v Violation) {
 	defer R.mu.Unlock()
 	key := v.Harness + "|" + v.Msg
 	R.violHits++
+	if R.violHits == 1 && R.graceS > 0 {
+		// the check is lost from here on: give the exploration a grace period to collect further
+		// counterexample classes, then stop and go to native replay
+		g := R.graceS
+		time.AfterFunc(time.Duration(g)*time.Second, func() {
+			R.stop(fmt.Sprintf("exploration stopped %d s after the first failing assertion (counterexamples go to native replay)", g))
+		})
+	}
 	if R.violHits >= R.maxViolHits && atomic.CompareAndSwapInt32(&R.stopFlag, 0, 1) {
 		R.StopWhy = fmt.Sprintf("exploration stopped after %d failing assertion instances (counterexamples go to native replay)", R.violHits)
 	}
